@@ -225,13 +225,48 @@ def backward_slice(body, start_ops):
         t = bl["term"]
         if t["k"] == "call":
             defs.setdefault(t["dest"]["local"], []).append(("call", t))
+    # mutable views obtained through deref-like calls (Vec::deref_mut, RefCell::borrow_mut, ...) alias the same local
+    VIEW = ("deref_mut", "as_mut", "as_mut_slice", "borrow_mut", "iter_mut", "as_mut_str", "get_mut")
+    view_of = {}     # local holding a mutable view -> local holding the reference it was derived from
+    for bl in body["blocks"]:
+        t = bl["term"]
+        if t["k"] == "call" and t["args"] and not t["dest"]["proj"]:
+            nm = (t["callee"].get("rpath") or t["callee"].get("path") or "").rsplit("::", 1)[-1]
+            p = op_place(t["args"][0])
+            if nm in VIEW and p:
+                view_of[t["dest"]["local"]] = p["local"]
+        for st in bl["stmts"]:
+            if st["k"] == "assign" and not st["place"]["proj"] and st["rv"]["k"] in ("use", "cast"):
+                p = op_place(st["rv"]["op"])
+                if p and not p["proj"]:
+                    view_of.setdefault(st["place"]["local"], p["local"])
+
+    def base_of(l, depth=0):
+        """the local ultimately mutated through reference-local l (or None)"""
+        if depth > 12:
+            return None
+        if l in refs:
+            tgt, is_mut = refs[l]
+            if not is_mut:
+                return None
+            # &mut (*view)  -> follow the view
+            if tgt in view_of or tgt in refs:
+                deeper = base_of(tgt, depth + 1) if tgt in refs else base_of(view_of[tgt], depth + 1)
+                return deeper if deeper is not None else tgt
+            return tgt
+        if l in view_of:
+            return base_of(view_of[l], depth + 1)
+        return None
+
     for bl in body["blocks"]:
         t = bl["term"]
         if t["k"] == "call":
             for a in t["args"]:
                 p = op_place(a)
-                if p and p["local"] in refs and refs[p["local"]][1]:
-                    muts.setdefault(refs[p["local"]][0], []).append(t)
+                if p:
+                    base = base_of(p["local"])
+                    if base is not None:
+                        muts.setdefault(base, []).append(t)
     locs = set()
     consts = []
     calls = []
